@@ -22,9 +22,24 @@ C02 — executable model of the projection-data layout ("one coherent array").
 * `bins…` are the same paths as lists of bins (their *meaning*); `Store`/`Spec` and `writeAddrs`/`writeBins`
   are the two sides of the refinement theorem.
 
+* `toDisk`/`fromDisk`/`writeScale` transcribe the treatment of the stream's `scale_factor`: every `set_*` but
+  `set_bin_value` passes `scale_factor` to `write_data` (→ `convert_range`: `round(value / scale)`,
+  convert_range.inl:139-185, `stir::round` round.inl:59), `set_bin_value` passes 1 (ProjDataFromStream.cxx:300),
+  every `get_*` multiplies by `scale_factor` (l.241, 279, 566, 707, 757).
+* `addrsBulk`/`binsBulk` transcribe the iteration of `ProjData::xapyb` (ProjData.cxx:425-470) and `apply_func`
+  (ProjData.cxx:557-585: `operator+=,-=,*=,/=`), `bulkResult` the element-wise arithmetic; `addrsFillPd`/`binsFillPd`
+  the iteration of `ProjData::fill(const ProjData&)` (ProjData.cxx:375-393); `memLayout`, `copyIntoMemory`
+  `ProjDataInMemory(const ProjData&)` (ProjDataInMemory.cxx:332) and `subsetCopy` `ProjData::get_subset`
+  (ProjData.cxx:165-188); `padOdd` the `make_num_tangential_poss_odd` branch of `get_viewgram`/`get_sinogram`
+  (ProjDataFromStream.cxx:243, 567; ProjDataInMemory.cxx:127, 242); `addrsSegOversized` what
+  `set_segment` does with a segment container that has more axial positions than the segment (no size check in the
+  pinned source: ProjDataFromStream.cxx:777-838, ProjDataInMemory.cxx:287-309).
+
 Not modelled: the byte encoding of a value (numeric type, byte order: the harness decodes bytes itself),
-`fstream` buffering (only *where* `flush()` is called: `flushes`), Interfile header text.
-Core Lean only.  All quantities are `Int` (32/64-bit overflow not modelled).
+`fstream` buffering (only *where* `flush()` is called: `flushes`), Interfile header text, `find_scale_factor`
+enlarging the scale for data that does not fit the on-disk type (the `set_*` then fail), float on-disk data with a
+scale factor other than 1 (every `set_*` but `set_bin_value` fails).
+Core Lean only.  All index quantities are `Int` (32/64-bit overflow not modelled), values are `Rat`.
 -/
 namespace StirVerif.C02
 
@@ -270,6 +285,129 @@ inductive WriteKind where
 def flushes : WriteKind → Bool
   | .bin => false
   | _ => true
+
+/-! ### values: on-disk number type and scale factor -/
+
+inductive NumType where
+  | float | short | ushort | int
+  deriving DecidableEq, Repr
+
+/-- `stir::round(float)` (round.inl:59): half away from zero -/
+def stirRound (x : Rat) : Int := if x ≥ 0 then (x + 1/2).floor else -((-x + 1/2).floor)
+
+/-- `write_data` with the given scale: same type (float → float) is copied (write_data.inl:125-131),
+    otherwise `convert_range`: negatives are truncated to 0 for unsigned types, else `round(value / scale)` -/
+def toDisk (ty : NumType) (scale : Rat) (v : Rat) : Rat :=
+  match ty with
+  | .float => v
+  | .ushort => if v < 0 then 0 else (stirRound (v / scale) : Rat)
+  | _ => (stirRound (v / scale) : Rat)
+
+/-- `… *= scale_factor` at the end of every `get_*` -/
+def fromDisk (scale : Rat) (d : Rat) : Rat := d * scale
+
+/-- the scale a write passes to `write_data`: `scale_factor`, except `set_bin_value` (`float scale = float(1)`);
+    `binScaled` is what the harness probes (true once `set_bin_value` uses the scale factor too) -/
+def writeScale (binScaled : Bool) (k : WriteKind) (scale : Rat) : Rat :=
+  if k = .bin ∧ binScaled = false then 1 else scale
+
+/-- what a reader gets back for a value written through a path of kind `k` -/
+def writeThenRead (ty : NumType) (binScaled : Bool) (k : WriteKind) (scale : Rat) (v : Rat) : Rat :=
+  fromDisk scale (toDisk ty (writeScale binScaled k scale) v)
+
+/-! ### bulk paths -/
+
+/-- `ProjData::xapyb`, `apply_func` (`operator+=` …), `sum`, …: TOF outermost, segments in increasing order,
+    one `SegmentBySinogram` each (`get_segment_by_sinogram` … `set_segment`) -/
+def binsBulk (l : Layout) : List Bin :=
+  l.tofRange.flatMap fun k => l.segRange.flatMap fun s => binsSegBySino l s k
+
+def addrsBulk (l : Layout) : Except Err (List Int) := do
+  let xs ← l.tofRange.mapM fun k => do
+    let ys ← l.segRange.mapM fun s => addrsSegBySino l s k
+    pure ys.flatten
+  pure xs.flatten
+
+/-- `ProjData::fill(const ProjData&)`: segments in increasing order, TOF inside, `SegmentByView` -/
+def binsFillPd (l : Layout) : List Bin :=
+  l.segRange.flatMap fun s => l.tofRange.flatMap fun k => binsSegByView l s k
+
+def addrsFillPd (l : Layout) : Except Err (List Int) := do
+  let xs ← l.segRange.mapM fun s => do
+    let ys ← l.tofRange.mapM fun k => addrsSegByView l s k
+    pure ys.flatten
+  pure xs.flatten
+
+/-- element-wise arithmetic of the bulk operations (`Array::xapyb`, `operator+=` … on segments / on the buffer) -/
+inductive BulkKind where
+  | sapyb | xapyb | sapybv | xapybv | add | sub | mul | div | addf | subf | mulf | divf
+  deriving DecidableEq, Repr
+
+/-- new value of one element: `o` old value, `x y` operands, `a b` scalars, `A B` element-wise coefficients -/
+def bulkResult (k : BulkKind) (o x y a b A B : Rat) : Rat :=
+  match k with
+  | .sapyb => a * o + b * y
+  | .xapyb => a * x + b * y
+  | .sapybv => A * o + B * y
+  | .xapybv => A * x + B * y
+  | .add => o + y
+  | .sub => o - y
+  | .mul => o * y
+  | .div => o / y
+  | .addf => o + a
+  | .subf => o - a
+  | .mulf => o * a
+  | .divf => o / a
+
+/-- the layout of the `ProjDataInMemory` created for the same geometry (constructor, ProjDataInMemory.cxx:54):
+    standard segment sequence, natural TOF order, `offset_3d_data` = one data set -/
+def memLayout (l : Layout) : Layout :=
+  let m : Layout := { l with order := .savt, elemSize := 1, offset := 0,
+                             segSeq := standardSegmentSequence l.minSeg l.maxSeg, tofSeq := l.tofRange, offset3d := 0 }
+  { m with offset3d := stdOffset3d m }
+
+/-- `ProjDataInMemory(const ProjData&)` → `ProjData::fill(const ProjData&)` on the new object: for every
+    (segment, TOF) the source addresses read (`get_segment_by_view`) paired with the buffer indices written -/
+def copyIntoMemory (l : Layout) : Except Err (List (Int × Int)) := do
+  let src ← addrsFillPd l
+  let dst ← addrsFillPd (memLayout l)
+  pure (src.zip dst)
+
+/-- geometry of the subset: `ProjDataInfoSubsetByView` keeps everything but the views (`views.size()` of them, numbered from 0) -/
+def subsetLayout (l : Layout) (n : Nat) : Layout :=
+  memLayout { l with minView := 0, numViews := (n : Int) }
+
+/-- `ProjData::get_subset`: for TOF, segment, subset view `j`: `get_viewgram(views[j])` → `set_viewgram` of view `j`
+    of the new `ProjDataInMemory`: (source address, buffer index) pairs -/
+def subsetCopy (l : Layout) (views : List Int) : Except Err (List (Int × Int)) := do
+  let sl := subsetLayout l views.length
+  let xs ← l.tofRange.mapM fun k => do
+    let ys ← l.segRange.mapM fun s => do
+      let zs ← ((List.range views.length).zip views).mapM fun (jv : Nat × Int) => do
+        let src ← addrsViewgram l s jv.2 k
+        let dst ← addrsViewgram sl s (jv.1 : Int) k
+        pure (src.zip dst)
+      pure zs.flatten
+    pure ys.flatten
+  pure xs.flatten
+
+/-- `make_num_tangential_poss_odd`: with an even number of tangential positions every row grows by one zero element -/
+def padOdd (l : Layout) (vals : List Rat) : List Rat :=
+  if l.numTang % 2 = 0 ∧ l.T > 0 then
+    (List.range (vals.length / l.T)).flatMap fun (r : Nat) => ((vals.drop (r * l.T)).take l.T) ++ [0]
+  else vals
+
+/-- a viewgram obtained with `make_num_tangential_poss_odd` has another `ProjDataInfo` / number of tangential
+    positions when that number is even: `set_viewgram` returns `Succeeded::no` -/
+def oddViewgramAccepted (l : Layout) : Bool := l.numTang % 2 ≠ 0
+
+/-- `set_segment` with a container holding `extra` axial positions more than the segment: the whole container is
+    written as one contiguous run from the start of the segment (after the conversion to the matching container
+    type when needed) — unless the size is checked (`checked`, probed by the harness; false in the pinned source) -/
+def addrsSegOversized (l : Layout) (checked : Bool) (seg tof : Int) (extra : Nat) : Except Err (List Int) := do
+  let o ← offsetOf l ⟨seg, l.minView, l.minAx seg, l.minTang, tof⟩
+  if checked then .error .axRange
+  else pure (block o l.elemSize ((l.A seg + extra) * (l.V * l.T)))
 
 /-! ### the two sides of the refinement -/
 
